@@ -685,13 +685,89 @@ fn c03_space(ctx: &Ctx) -> C03Space {
             blocks.push((1, i as u64, k));
         }
     }
-    for l in [1000u64, 1_000_000] {
+    for (li, _) in C03_THRESHOLD_LENS.iter().enumerate() {
         for n in 2..=8 {
-            blocks.push((2, l, n));
+            blocks.push((2, li as u64, n));
         }
     }
     blocks.push((3, 0, 0));
     C03Space { blocks }
+}
+
+pub const C03_THRESHOLD_LENS: [u64; 5] = [1000, 5000, 1_000_000, 1 << 63, u64::MAX];
+
+/// Requests with n ranges whose total payload walks across the decision lines of the multipart
+/// estimate (sum + 80n vs L/4, L/2, L and sum vs L), for entities with no, some and many header
+/// bytes (the real multipart overhead per part grows with them; the estimate does not).
+pub fn c03_threshold_cases(l: u64, n: u64) -> Vec<ServeCase> {
+    let (li, ni) = (l as i128, n as i128);
+    let mut sums: Vec<i128> = Vec::new();
+    for base in [li / 4 - 80 * ni, li / 2 - 80 * ni, li - 80 * ni, li] {
+        for d in -3i128..=3 {
+            sums.push(base + d);
+        }
+    }
+    for d in 0..16i128 {
+        sums.push(li - 80 * ni - d); // just inside the estimate, where the exact length may not fit
+    }
+    sums.retain(|s| *s >= ni && *s <= li);
+    sums.sort_unstable();
+    sums.dedup();
+    let hdr_sets: Vec<Vec<(String, Vec<u8>)>> = vec![
+        vec![],
+        vec![("content-type".into(), b"application/octet-stream".to_vec()), ("content-disposition".into(), b"attachment; filename=\"a-rather-long-file-name.bin\"".to_vec())],
+        vec![("content-type".into(), b"text/plain".to_vec()), ("x-meta".into(), vec![b'm'; 230])],
+        vec![("x-long".into(), vec![b'v'; 1000])],
+    ];
+    let mut out = Vec::new();
+    for sum in sums {
+        for layout in 0..5 {
+            let each = sum / ni;
+            let mut lens: Vec<i128> = vec![each; n as usize];
+            lens[0] += sum - each * ni;
+            if layout >= 3 {
+                // uneven: all ranges tiny except one that carries (almost) the whole payload
+                lens = vec![if layout == 3 { 1 } else { 5 }; n as usize];
+                let rest = sum - lens.iter().sum::<i128>() + lens[n as usize - 1];
+                lens[n as usize - 1] = rest;
+            }
+            if lens.iter().any(|x| *x <= 0 || *x > li) {
+                continue;
+            }
+            let mut specs = Vec::new();
+            let mut at: i128 = 0;
+            for (i, ln) in lens.iter().enumerate() {
+                let start = match layout {
+                    1 | 4 => (i as i128 * 7) % (li - ln + 1),
+                    _ => {
+                        if at + ln > li {
+                            at = 0;
+                        }
+                        let s = at;
+                        at += ln;
+                        s
+                    }
+                };
+                specs.push(format!("{}-{}", start, start + ln - 1));
+            }
+            if layout == 2 {
+                specs.reverse();
+            }
+            for (hi, hdrs) in hdr_sets.iter().enumerate() {
+                if hi > 0 && layout == 1 {
+                    continue;
+                }
+                let _ = layout;
+                let ent = EntSpec { len: l, hdrs: hdrs.clone(), ..Default::default() };
+                let mut c = ServeCase::get(ent);
+                c.cap = 1 << 14;
+                c.extra_polls = 0;
+                c.hdrs.push(("range".into(), format!("bytes={}", specs.join(",")).into_bytes()));
+                out.push(c);
+            }
+        }
+    }
+    out
 }
 
 const C03_BOUNDARY_LENS: [u64; 8] = [1, 10, 240, 1000, 65_536, 1 << 32, 1 << 63, u64::MAX];
@@ -719,7 +795,7 @@ impl Prop for C03 {
         "exploration"
     }
     fn rule(&self, ctx: &Ctx) -> String {
-        format!("requests carrying only Range. (a) exhaustive: entity lengths 1..={}, all sets of 1..{} specs in the three forms with positions 0..=L+2, separators ',' ', ' ',\\t'; (b) boundary: lengths {:?} with positions {{0,1,2,L-2..L+2,L/2,2^32,2^63,2^64-2,2^64-1,2^64,10^30}}, 1..4 specs; (c) multipart threshold sweep on L in {{1000,10^6}} with 2..8 ranges around the 'plus 80 each under half' and 'sum >= L' lines; (d) near-misses outside the grammar. Non-trivial = distinct (Range value, L) that is a grammatical bytes= set and was compared with the RFC 7233 model (status, Content-Range, parsed multipart ranges)",
+        format!("requests carrying only Range. (a) exhaustive: entity lengths 1..={}, all sets of 1..{} specs in the three forms with positions 0..=L+2, separators ',' ', ' ',\\t'; (b) boundary: lengths {:?} with positions {{0,1,2,L-2..L+2,L/2,2^32,2^63,2^64-2,2^64-1,2^64,10^30}}, 1..4 specs; (c) multipart threshold sweep on L in {{1000,5000,10^6,2^63,2^64-1}} with 2..8 ranges around the 'plus 80 each under half' and 'sum >= L' lines and just inside 'sum + 80n < L', for entities with 0 / 80 / 250 / 1000 header bytes; (d) near-misses outside the grammar. Non-trivial = distinct (Range value, L) that is a grammatical bytes= set and was compared with the RFC 7233 model (status, Content-Range, parsed multipart ranges)",
             if thorough(ctx) { 8 } else { 5 }, if thorough(ctx) { 3 } else { 2 }, C03_BOUNDARY_LENS)
     }
     fn n_blocks(&self, ctx: &Ctx) -> usize {
@@ -808,49 +884,8 @@ impl Prop for C03 {
                 }
             }
             2 => {
-                // n ranges of total payload `sum`, walking across the two thresholds
-                let (l, n) = (x, y);
-                let (li, ni) = (l as i64, n as i64);
-                let half_line = li / 2 - 80 * ni; // sum + 80n < L/2  <=> sum < half_line (+rounding)
-                let mut sums: Vec<u64> = Vec::new();
-                for base in [li / 4 - 80 * ni, half_line, li - 80 * ni, li] {
-                    for d in -3i64..=3 {
-                        let s = base + d;
-                        if s >= n as i64 {
-                            sums.push(s as u64);
-                        }
-                    }
-                }
-                for sum in sums {
-                    for layout in 0..3 {
-                        // split `sum` into n ranges; layout 0 disjoint ascending, 1 overlapping from 0, 2 descending order
-                        let each = sum / n;
-                        let mut lens: Vec<u64> = vec![each; n as usize];
-                        lens[0] += sum - each * n;
-                        if lens.iter().any(|&x| x == 0 || x > l) {
-                            continue;
-                        }
-                        let mut specs = Vec::new();
-                        let mut at = 0u64;
-                        for (i, ln) in lens.iter().enumerate() {
-                            let start = match layout {
-                                1 => (i as u64 * 7) % (l - ln + 1),
-                                _ => {
-                                    if at + ln > l {
-                                        at = 0;
-                                    }
-                                    let s = at;
-                                    at += ln;
-                                    s
-                                }
-                            };
-                            specs.push(format!("{}-{}", start, start + ln - 1));
-                        }
-                        if layout == 2 {
-                            specs.reverse();
-                        }
-                        run(l, format!("bytes={}", specs.join(",")).as_bytes(), sink);
-                    }
+                for c in c03_threshold_cases(C03_THRESHOLD_LENS[x as usize], y) {
+                    exec(&c, sink, &c03_judge);
                 }
             }
             _ => {
@@ -1017,7 +1052,7 @@ impl Prop for C04 {
                         }
                         for method in ["GET", "HEAD"] {
                             for range in ranges {
-                                let ent = EntSpec { len: 10, etag: etag.clone(), mtime, hdrs: vec![], plan: ChunkPlan::default(), fault: None };
+                                let ent = EntSpec { len: 10, etag: etag.clone(), mtime, hdrs: vec![], plan: ChunkPlan::default(), fault: None, slow_calls: false };
                                 let mut c = ServeCase::get(ent);
                                 c.method = method.into();
                                 c.extra_polls = 0;
@@ -1220,7 +1255,7 @@ impl Prop for C05 {
                 }
                 for range in ranges {
                     for method in ["GET", "HEAD"] {
-                        let ent = EntSpec { len, etag: etag.map(|e| e.to_vec()), mtime, hdrs: vec![("content-type".into(), b"text/plain".to_vec())], plan: ChunkPlan::default(), fault: None };
+                        let ent = EntSpec { len, etag: etag.map(|e| e.to_vec()), mtime, hdrs: vec![("content-type".into(), b"text/plain".to_vec())], plan: ChunkPlan::default(), fault: None, slow_calls: false };
                         let mut c = ServeCase::get(ent);
                         c.method = method.into();
                         c.extra_polls = 0;
@@ -1437,7 +1472,7 @@ pub fn c06_block(b: usize, sink: &mut Sink, judge: &ServeJudge) {
                     continue;
                 }
                 let v: Vec<String> = (0..n_many as u64).map(|i| format!("{}-{}", i * step, i * step + (i % 5))).collect();
-                let ent = EntSpec { len, etag: Some(b"\"v1\"".to_vec()), mtime: None, hdrs: hdrs.clone(), plan: plans[n_many % plans.len()].clone(), fault: None };
+                let ent = EntSpec { len, etag: Some(b"\"v1\"".to_vec()), mtime: None, hdrs: hdrs.clone(), plan: plans[n_many % plans.len()].clone(), fault: None, slow_calls: false };
                 let mut c = ServeCase::get(ent);
                 c.cap = 1 << 20;
                 c.hdrs.push(("range".into(), format!("bytes={}", v.join(", ")).into_bytes()));
@@ -1448,6 +1483,19 @@ pub fn c06_block(b: usize, sink: &mut Sink, judge: &ServeJudge) {
         for set_i in 0..n_sets {
             if sink.stopped() {
                 return;
+            }
+            // histories: a multi-range request whose exact multipart length does not fit in u64 (413)
+            // right before an ordinary one, on the same thread with the same entity headers - state
+            // must not leak from the refused request into the next response
+            if len > (1 << 62) && set_i % 3 == 0 {
+                let huge = len - 160 - 1 - (set_i % 11);
+                let ent = EntSpec { len, etag: Some(b"\"v1\"".to_vec()), mtime: None, hdrs: hdrs.clone(), plan: ChunkPlan::default(), fault: None, slow_calls: false };
+                let mut c = ServeCase::get(ent);
+                c.cap = 1 << 12;
+                c.extra_polls = 0;
+                c.hdrs.push(("range".into(), format!("bytes=0-0,1-{}", huge).into_bytes()));
+                exec(&c, sink, judge);
+                sink.count("overflowing_request_before_ordinary_one");
             }
             let n = 2 + (set_i % 7) as usize;
             let mut ranges: Vec<(u64, u64)> = Vec::new();
@@ -1474,7 +1522,7 @@ pub fn c06_block(b: usize, sink: &mut Sink, judge: &ServeJudge) {
             let value = format!("bytes={}", ranges.iter().map(|(a, b)| if rng.chance(1, 8) && *b == len - 1 { format!("{}-", a) } else { format!("{}-{}", a, b) }).collect::<Vec<_>>().join(if set_i % 2 == 0 { "," } else { ", " }));
             for with_if_range in [false, true] {
                 let plan = plans[(set_i as usize + with_if_range as usize) % plans.len()].clone();
-                let mut ent = EntSpec { len, etag: Some(b"\"v1\"".to_vec()), mtime: Some((FIXED_SEC, 0)), hdrs: hdrs.clone(), plan: plan.clone(), fault: None };
+                let mut ent = EntSpec { len, etag: Some(b"\"v1\"".to_vec()), mtime: Some((FIXED_SEC, 0)), hdrs: hdrs.clone(), plan: plan.clone(), fault: None, slow_calls: false };
                 if set_i % 3 == 0 {
                     ent.mtime = None;
                 }
@@ -1656,7 +1704,7 @@ pub fn c07_cases_for_tuple(t: &[u32], slow: bool) -> Vec<ServeCase> {
                         continue;
                     }
                     let plan = ChunkPlan { sizes: t.iter().map(|x| Sz::Abs(*x)).collect(), pend_mask: if pend { 0b0101 } else { 0 }, pend_period: if pend { 4 } else { 0 } };
-                    let ent = EntSpec { len, etag: None, mtime: None, hdrs: vec![("content-type".into(), b"x/y".to_vec())], plan, fault: Some(Fault { call, at: *at, kind: kind.clone() }) };
+                    let ent = EntSpec { len, etag: None, mtime: None, hdrs: vec![("content-type".into(), b"x/y".to_vec())], plan, fault: Some(Fault { call, at: *at, kind: kind.clone() }), slow_calls: false };
                     let mut c = ServeCase::get(ent);
                     c.extra_polls = 3;
                     if let Some(r) = &range {
@@ -1914,6 +1962,16 @@ impl Prop for C13 {
         let ctx = sink.ctx.clone();
         let mut rng = Rng::from_parts(ctx.seed, &[13, b as u64]);
         let per_block = if ctx.leg.slow() { 100 } else if thorough(&ctx) { 40_000 } else { 1_200 };
+        if b >= C13_METHODS.len() && b < C13_METHODS.len() + C03_THRESHOLD_LENS.len() {
+            // the multipart length arithmetic near its limits (header-rich entities, huge lengths)
+            let l = C03_THRESHOLD_LENS[b - C13_METHODS.len()];
+            for n in [2u64, 3, 8] {
+                for c in c03_threshold_cases(l, n) {
+                    exec(&c, sink, &c13_judge);
+                    sink.count("multipart_limit_cases");
+                }
+            }
+        }
         if b < C13_METHODS.len() {
             // deterministic part: this method x every header x every seed value class
             let m = C13_METHODS[b];
@@ -1989,8 +2047,10 @@ fn c14_first_checks(c: &ServeCase, o: &ServeObs, sink: &mut Sink) -> Result<(), 
         if lm > date {
             return Err(Verdict::viol(format!("last-modified-after-date|{}", st), format!("Last-Modified {} > Date {}", lm, date)));
         }
-        // judged against the response's own Date, so no clock is read here
-        let want = msec.min(date);
+        // judged against the response's own Date, so no clock is read here. A modification time
+        // later than the Date lies in the future: then only "never exceeds the Date" is required
+        // (an implementation may clamp with an earlier clock reading than the one it prints).
+        let want = if msec > date { lm } else { msec };
         if lm != want {
             return Err(Verdict::viol(
                 format!("last-modified-value|{}|{}", st, if msec > date { "future" } else { "past" }),
@@ -2175,14 +2235,35 @@ impl Prop for C14 {
     fn rule(&self, _: &Ctx) -> String {
         "all two-request histories over: ETag {absent, strong, weak} x mtime {absent, epoch, whole second, +1ms, +1ns, +999999999ns, now+1day, now+3s, now+1h} x entity header sets {none, 1, 3, repeated name} x first request {plain, single range, multi range, unsatisfiable, failing If-Match, matching If-None-Match, multi/single range + If-Range} x all 32 subsets of echoed validators (If-None-Match, If-Modified-Since, If-Match, If-Unmodified-Since, If-Range+Range) x GET/HEAD. Non-trivial = distinct history whose first response headers were checked and (if anything was echoed) whose second status was compared with the round-trip rule".into()
     }
-    fn n_blocks(&self, _: &Ctx) -> usize {
-        3 * 9 * 4
+    fn n_blocks(&self, ctx: &Ctx) -> usize {
+        3 * 9 * 4 + if ctx.leg.slow() { 0 } else { 10 }
     }
     fn exhaustive(&self, _: &Ctx) -> bool {
         true
     }
     fn run_block(&self, b: usize, sink: &mut Sink) {
         let now = std::time::SystemTime::now().duration_since(std::time::UNIX_EPOCH).unwrap().as_secs();
+        if b >= 3 * 9 * 4 {
+            // entity whose metadata callbacks each straddle a second boundary: Date and
+            // Last-Modified must still be consistent (one block per case: they sleep)
+            let k = b - 3 * 9 * 4;
+            let firsts = c14_firsts();
+            let first = &firsts[[0usize, 1, 3, 4, 5][k % 5]];
+            let mtime = if k < 5 { Some((now + 86_400, 250_000_000)) } else { Some((FIXED_SEC, 500_000_000)) };
+            let ent = EntSpec { len: 1000, etag: Some(b"\"v1\"".to_vec()), mtime, hdrs: vec![("content-type".into(), b"text/plain".to_vec())], plan: ChunkPlan::default(), fault: None, slow_calls: true };
+            let mut c = ServeCase::get(ent);
+            c.extra_polls = 0;
+            for (k2, v) in first {
+                c.hdrs.push((k2.to_string(), v.to_vec()));
+            }
+            let h = History { first: c, echo: 0, second_method: "GET".into() };
+            if sink.admit() {
+                let (v, nt, rendered) = c14_run(&h, sink);
+                sink.count("slow_callback_cases");
+                sink.record(v, nt, &|| rendered.clone());
+            }
+            return;
+        }
         let etags: [Option<&[u8]>; 3] = [None, Some(b"\"v1\""), Some(b"W/\"v1\"")];
         let etag = etags[b % 3];
         let mtime = c14_mtimes(now)[(b / 3) % 9];
@@ -2205,7 +2286,7 @@ impl Prop for C14 {
                         if m1 == "HEAD" && echo != 0 {
                             continue;
                         }
-                        let ent = EntSpec { len: 1000, etag: etag.map(|e| e.to_vec()), mtime, hdrs: hdrs.clone(), plan: ChunkPlan::default(), fault: None };
+                        let ent = EntSpec { len: 1000, etag: etag.map(|e| e.to_vec()), mtime, hdrs: hdrs.clone(), plan: ChunkPlan::default(), fault: None, slow_calls: false };
                         let mut c = ServeCase::get(ent);
                         c.method = m1.into();
                         c.extra_polls = 0;
@@ -2229,7 +2310,7 @@ impl Prop for C14 {
         sink.record(v, nt, &|| rendered.clone());
     }
     fn floors(&self, _: &Ctx) -> Vec<(&'static str, u64)> {
-        vec![("round_trips_judged", 1000), ("future_mtime_clamped", 10), ("past_mtime_truncated", 100), ("if_range_echo_206", 10), ("multipart_parts_header_checked", 10), ("first_status_304", 1), ("first_status_412", 1), ("first_status_416", 1)]
+        vec![("round_trips_judged", 1000), ("future_mtime_clamped", 10), ("past_mtime_truncated", 100), ("if_range_echo_206", 10), ("multipart_parts_header_checked", 10), ("first_status_304", 1), ("first_status_412", 1), ("first_status_416", 1), ("slow_callback_cases", 10)]
     }
     fn assumptions(&self) -> Vec<String> {
         vec!["Last-Modified is judged against the response's own Date (no clock read by the oracle); date echoes of a future-dated entity are not judged (their right answer depends on the clock of the second request); presence of Date without an mtime and headers of 400/405/413 are not judged".into()]
